@@ -66,7 +66,7 @@ fn main() {
     let reverse = args.get(3).map(|a| a == "rev").unwrap_or(false);
     let mut all: Vec<System> = Vec::new();
     for i in 0..n {
-        let mut sys = match i % 6 {
+        let sys = match i % 6 {
             0 => gen_planted(&mut rng, 8, 1e-2, &SHAPES),
             1 => gen_planted(&mut rng, 5, 0.4, &SHAPES),
             2 => {
@@ -98,6 +98,7 @@ fn main() {
                 )
             }
         };
+        let mut sys = maybe_large(&mut rng, i, sys);
         if i % 7 == 6 {
             sys = with_priorities(&mut rng, sys);
         }
@@ -307,8 +308,9 @@ fn main() {
         }
     }
     println!("DIGEST {digest:016x}");
+    let large_systems = large_count();
     println!(
-        "STATS {{\"systems\": {systems}, \"both_ok\": {both_ok}, \"both_err\": {plain_err}, \"analysis_only_err\": {analysis_only_err}, \"repeated_calls\": {repeats}, \"texts\": {texts}, \"text_runs_under_other_configs\": {config_runs}, \"of_which_fail\": {config_errs}, \"fresh_thread_solves\": {history_free}, \"order\": \"{}\", \"digest\": \"{digest:016x}\", \"violations\": {}}}",
+        "STATS {{\"systems\": {systems}, \"large_systems\": {large_systems}, \"both_ok\": {both_ok}, \"both_err\": {plain_err}, \"analysis_only_err\": {analysis_only_err}, \"repeated_calls\": {repeats}, \"texts\": {texts}, \"text_runs_under_other_configs\": {config_runs}, \"of_which_fail\": {config_errs}, \"fresh_thread_solves\": {history_free}, \"order\": \"{}\", \"digest\": \"{digest:016x}\", \"violations\": {}}}",
         if reverse { "reversed" } else { "listed" },
         out.len()
     );
